@@ -18,20 +18,21 @@ const RootName = "Zq7RootZq7"
 // reference model, advanced as a conforming server would behave, so that most
 // operations address existing resources. The executor never consults it.
 type gen struct {
-	r       *rt.Rand
-	j       *model.Judge
-	plan    *Plan
-	names   []string
-	seq     int
-	tier    string
-	weights []int
-	maxSize int
-	exotic  bool // special characters in names
-	spellP  float64
+	r          *rt.Rand
+	j          *model.Judge
+	plan       *Plan
+	names      []string
+	seq        int
+	tier       string
+	weights    []int
+	maxSize    int
+	exotic     bool // special characters in names
+	spellP     float64
+	bodyFaultP float64 // share of PUTs whose body stream breaks
 }
 
 var plainNames = []string{"a", "b", "c", "d"}
-var specialNames = []string{"a b", "p%q", "h#h", "q?q", "s;s", "x+y", "q\"q", "<&>", "ü", ".dot", "...", "é.txt", "f.html", "t.txt", "j.json", "a:b", "w\\x", "x=y&z", "~t", "it's", "%41", "a%2fb", "日本", " lead", "trail "}
+var specialNames = []string{"a b", "p%q", "h#h", "q?q", "s;s", "x+y", "q\"q", "<&>", "ü", ".dot", "...", "é.txt", "f.html", "t.txt", "j.json", "a:b", "w\\x", "x=y&z", "~t", "it's", "%41", "a%2fb", "日本", " lead", "trail ", ".webdav-upload-0", ".webdav-upload-a", ".webdav-upload-1"}
 
 var methods = []string{"OPTIONS", "GET", "HEAD", "PUT", "DELETE", "MKCOL", "COPY", "MOVE", "PROPFIND", "OTHER"}
 
@@ -437,6 +438,8 @@ func (g *gen) commit(st *Step, hints map[string]string) {
 			if f.At < len(st.Body) {
 				mr.Body = st.Body[:f.At]
 			}
+		case f.Seam == "req-body" && (f.Kind == "cancel-silent" || f.Kind == "cancel-at-eof"):
+			// the stream stays healthy: a server that ignores the context carries it out
 		case f.Seam == "req-body":
 			mr.BodyBroken = true
 		case f.Seam == "disk":
@@ -489,6 +492,9 @@ func (g *gen) genRequest() *Step {
 		st.Chunk = g.chunk()
 		if g.r.Chance(0.3) {
 			st.set("Content-Type", rt.Pick(g.r, []string{"text/plain", "application/octet-stream"}))
+		}
+		if g.bodyFaultP > 0 && g.r.Chance(g.bodyFaultP) {
+			st.Faults = []Fault{g.bodyFault(len(st.Body))}
 		}
 		return st
 	case "DELETE":
@@ -629,6 +635,11 @@ func (g *gen) stepCount() int {
 // GenC01 generates a fault-free history judged by the resource-tree model.
 func GenC01(seed uint64, tier string) *Plan {
 	g := newGen(seed, tier, "C01", "history")
+	if g.r.Chance(0.5) {
+		// a broken upload is a refused request like any other: the model demands
+		// a status >= 400 and an unchanged tree
+		g.bodyFaultP = 0.08
+	}
 	g.genSetup()
 	n := g.stepCount()
 	for i := 0; i < n; i++ {
